@@ -15,6 +15,8 @@ import (
 	"golang.org/x/tools/go/packages"
 	"golang.org/x/tools/go/ssa"
 	"golang.org/x/tools/go/ssa/ssautil"
+
+	"ivgsa/internal/canon"
 )
 
 // ModulePath is the import path prefix of the analysed module.
@@ -31,6 +33,10 @@ type Program struct {
 	Types map[string]*packages.Package
 
 	NumFuncs int
+	// Renames: identifiers of the tree that are analysed under the name the rules know them by (package canon)
+	Renames []canon.Rename
+	// RawPkgs: the module packages as loaded, before SSA (for `ivgsa snapshot`)
+	RawPkgs []*packages.Package
 }
 
 // RepoDir returns the directory analysed: $IVG_REPO or /repo.
@@ -64,28 +70,66 @@ func Load(dir, arch string) (*Program, error) {
 		Env:   env,
 		Tests: false,
 	}
-	pkgs, err := packages.Load(cfg, "./...")
-	if err != nil {
-		return nil, fmt.Errorf("packages.Load: %w", err)
-	}
-	if len(pkgs) == 0 {
-		return nil, fmt.Errorf("no packages loaded from %s", dir)
-	}
-	var errs []string
-	packages.Visit(pkgs, nil, func(p *packages.Package) {
-		for _, e := range p.Errors {
-			errs = append(errs, e.Error())
+	loadAll := func() ([]*packages.Package, error) {
+		pkgs, err := packages.Load(cfg, "./...")
+		if err != nil {
+			return nil, fmt.Errorf("packages.Load: %w", err)
 		}
-	})
-	if len(errs) > 0 {
-		sort.Strings(errs)
-		return nil, fmt.Errorf("type-check/load errors (%d), first: %s", len(errs), errs[0])
+		if len(pkgs) == 0 {
+			return nil, fmt.Errorf("no packages loaded from %s", dir)
+		}
+		var errs []string
+		packages.Visit(pkgs, nil, func(p *packages.Package) {
+			for _, e := range p.Errors {
+				errs = append(errs, e.Error())
+			}
+		})
+		if len(errs) > 0 {
+			sort.Strings(errs)
+			return nil, fmt.Errorf("type-check/load errors (%d), first: %s", len(errs), errs[0])
+		}
+		return pkgs, nil
+	}
+	pkgs, err := loadAll()
+	if err != nil {
+		return nil, err
+	}
+	inMod := func(pks []*packages.Package) []*packages.Package {
+		var out []*packages.Package
+		for _, pk := range pks {
+			if pk.PkgPath == ModulePath || strings.HasPrefix(pk.PkgPath, ModulePath+"/") {
+				out = append(out, pk)
+			}
+		}
+		return out
+	}
+	relOf := func(tp *types.Package) string {
+		return strings.TrimPrefix(strings.TrimPrefix(tp.Path(), ModulePath), "/")
+	}
+	// identifiers the rules know under another name (unexported things and parameters renamed since the rules were
+	// written): analyse an alpha-renamed copy held in memory. If that copy does not type-check the tree is analysed
+	// as it is.
+	var renames []canon.Rename
+	if snap, serr := canon.Embedded(); serr == nil && os.Getenv("IVGSA_NO_CANON") == "" {
+		if overlay, rs := canon.Plan(snap, inMod(pkgs), relOf); len(overlay) > 0 {
+			cfg.Overlay = overlay
+			if p2, err2 := loadAll(); err2 == nil {
+				pkgs, renames = p2, rs
+			} else {
+				cfg.Overlay = nil
+				if p3, err3 := loadAll(); err3 == nil {
+					pkgs = p3
+				} else {
+					return nil, err3
+				}
+			}
+		}
 	}
 	prog, _ := ssautil.AllPackages(pkgs, ssa.BuilderMode(0))
 	prog.Build()
 
 	p := &Program{Dir: dir, Arch: arch, Fset: prog.Fset, SSA: prog,
-		ByRel: map[string]*ssa.Package{}, Types: map[string]*packages.Package{}}
+		ByRel: map[string]*ssa.Package{}, Types: map[string]*packages.Package{}, Renames: renames, RawPkgs: inMod(pkgs)}
 	for _, pk := range pkgs {
 		if pk.PkgPath != ModulePath && !strings.HasPrefix(pk.PkgPath, ModulePath+"/") {
 			continue
